@@ -87,7 +87,13 @@ def dof_positions(space, cell, x):
     return out
 
 
-FAMILIES = [("P1", "jj"), ("P1", "flux"), ("P2", "pmw"), ("P2", "flux"), ("DG1", "pmw"), ("vP1", "jj"), ("P2", "mr"), ("P1", "mr")]
+FAMILIES = [("P1", "jj"), ("P1", "flux"), ("P2", "pmw"), ("P2", "flux"), ("DG1", "pmw"), ("vP1", "jj"), ("P2", "mr"), ("P1", "mr"),
+            ("P2", "oneside"), ("P1", "oneside"), ("P1", "geo")]
+
+
+def gkind(kind):
+    """geometry family of the shared cell pair: geometric quantities need rational edge lengths"""
+    return "pythag" if kind == "geo" else "affine"
 
 
 def build(item):
@@ -111,6 +117,18 @@ def build(item):
         form = f("-") * inner(dot(avg(grad(u)), n("+")), jump(v)) * dS
     elif kind == "dg0":
         form = inner(jump(u), jump(v)) * dS
+    elif kind == "oneside":
+        # everything restricted to one side: flagged needs_facet_permutations = false
+        f = ufl.Coefficient(ufl.FunctionSpace(dom, make_element("P2" if ek == "P2" else "P1", cell, td)))
+        g = ufl.Coefficient(V)
+        form = f("+") * g("+") * inner(u("+"), v("+")) * dS
+    elif kind == "geo":
+        # geometric quantities lowered to raw vertex coordinates of either cell ('-' block of coordinate_dofs)
+        h = ufl.CellDiameter(dom)
+        q = h("-") + 2 * ufl.MaxCellEdgeLength(dom)("+") * ufl.MinCellEdgeLength(dom)("-")
+        if cell in ("interval", "triangle"):
+            q = q + ufl.Circumradius(dom)("-") + 3 * ufl.Circumradius(dom)("+") + ufl.CellVolume(dom)("-") * ufl.FacetArea(dom)("+")
+        form = q * inner(jump(u), jump(v)) * dS + avg(h) * inner(u("-"), v("+")) * dS
     elif kind == "mr":
         # several quadrature rules in one interior-facet integral; the rule processed last involves one side only
         f = ufl.Coefficient(ufl.FunctionSpace(dom, make_element("P1", cell, td)))
@@ -132,15 +150,17 @@ def run(chk):
     fams = []
     for cell in plan:
         for ek, kind in FAMILIES:
-            if TD[cell] == 3 and ek == "P2":
+            if kind == "geo" and cell not in ("triangle", "quadrilateral"):
+                continue
+            if TD[cell] == 3 and ek == "P2" and not (kind == "oneside" and cell == "tetrahedron"):
                 continue
             if cell == "hexahedron" and (ek, kind) not in (("P1", "jj"), ("P1", "flux")):
                 continue
             if quick and cell == "hexahedron" and kind != "jj":
                 continue                          # the exact tensor of a hexahedron flux form costs minutes in TLC
-            if quick and cell == "tetrahedron" and (ek, kind) not in (("P1", "jj"), ("DG1", "pmw"), ("P1", "mr")):
+            if quick and cell == "tetrahedron" and (ek, kind) not in (("P1", "jj"), ("DG1", "pmw"), ("P1", "mr"), ("P1", "oneside")):
                 continue
-            if quick and cell == "quadrilateral" and (ek, kind) not in (("P1", "flux"), ("P2", "pmw"), ("P1", "jj"), ("P1", "mr")):
+            if quick and cell == "quadrilateral" and (ek, kind) not in (("P1", "flux"), ("P2", "pmw"), ("P1", "jj"), ("P1", "mr"), ("P2", "oneside"), ("P1", "geo")):
                 continue
             fams.append((cell, ek, kind))
         fams.append((cell, "DG0", "dg0"))
@@ -148,11 +168,12 @@ def run(chk):
     jobs, meta = [], []
     probe = {}
     for fi, (cell, ek, kind) in enumerate(fams):
-        if cell not in probe:
+        pk = (cell, gkind(kind))
+        if pk not in probe:
             prog0 = s5.programs_of_form(build({"fam": (cell, "P1", "jj")})["form"], 0, "float64")[0]
             geom, topo = s5.ref_geometry(cell)
             fp = rnd.randrange(len(topo[TD[cell] - 1]))
-            fm, xp, xm, match = s5.interior_pair(prog0, rnd, fp)
+            fm, xp, xm, match = s5.interior_pair(prog0, rnd, fp, gkind(kind))
             syms = symmetries(cell)
             pairs = list(itertools.product(range(len(syms)), repeat=2))
             if plan[cell] is not None and len(pairs) > plan[cell]:
@@ -165,8 +186,8 @@ def run(chk):
                 nxm, nfm = renumber(cell, xm, fm, syms[b])
                 confs.append({"cell": cell, "x": [nxp, nxm], "f": [nfp, nfm], "sig": [syms[a], syms[b]]})
                 jobs.append({"cell": cell, "x": [nxp, nxm], "f": [nfp, nfm]})
-                meta.append((cell, len(confs) - 1))
-            probe[cell] = {"confs": confs, "canon": [i for i, c in enumerate(confs) if c["sig"][0] == syms[0] and c["sig"][1] == syms[0]][0]}
+                meta.append((pk, len(confs) - 1))
+            probe[pk] = {"confs": confs, "canon": [i for i, c in enumerate(confs) if c["sig"][0] == syms[0] and c["sig"][1] == syms[0]][0]}
     d = tlc.stage("facetperm", ["Rational", "RefCell", "FacetPerm"])
     f = d / "perm.json"
     f.write_text(json.dumps(jobs))
@@ -179,16 +200,17 @@ def run(chk):
     if len(got) != len(jobs):
         raise MachineryError("FacetPerm.tla evaluation incomplete:\n" + "\n".join(r.out.splitlines()[-25:]))
     chk.add(states=r.distinct, transitions=r.generated, numbering_pairs=len(jobs))
-    for k, (cell, ci) in enumerate(meta):
+    for k, (pk, ci) in enumerate(meta):
         valid, bij = got[k]
-        probe[cell]["confs"][ci]["valid"] = valid
+        cell = pk[0]
+        probe[pk]["confs"][ci]["valid"] = valid
         if not bij:
-            chk.violation(f"codes:{cell}:not-a-bijection", f"{cell}: numbering pair {probe[cell]['confs'][ci]['sig']} admits the code pairs "
+            chk.violation(f"codes:{cell}:not-a-bijection", f"{cell}: numbering pair {probe[pk]['confs'][ci]['sig']} admits the code pairs "
                           f"{valid}: not exactly one partner code per code (design of the permutation codes)", {"job": jobs[k]})
     # ---- real kernels
     items = []
     for fi, (cell, ek, kind) in enumerate(fams):
-        P = probe[cell]
+        P = probe[(cell, gkind(kind))]
         canon = P["confs"][P["canon"]]
         prog = s5.programs_of_form(build({"fam": (cell, ek, kind)})["form"], 0, "float64")[0]
         w0, c0 = s5.random_data(prog, rnd, False)
@@ -200,7 +222,7 @@ def run(chk):
             ex.append({"ent": canon["f"], "perm": list(p), "x": canon["x"], "w": w0, "c": c0, "oracle": False, "tag": "invalid"})
         # every code pair on the canonical configuration: an integral flagged needs_facet_permutations = false
         # must not depend on the codes at all
-        for p in (allc if (kind == "dg0" or not quick) else rnd.sample(allc, min(len(allc), 8))):
+        for p in (allc if (kind in ("dg0", "oneside") or not quick) else rnd.sample(allc, min(len(allc), 8))):
             ex.append({"ent": canon["f"], "perm": list(p), "x": canon["x"], "w": w0, "c": c0, "oracle": False, "tag": "anycode"})
         pos0 = [[dof_positions(prog.spaces[n], cell, canon["x"][s]) for s in range(2)] for n in prog.coefs]
         for ci, cf in enumerate(P["confs"]):
@@ -234,7 +256,7 @@ def run(chk):
             continue
         E, amp = can[0]["expected"], can[0].get("amp", 1.0)
         prog = s5.programs_of_form(build({"fam": it["fam"]})["form"], 0, "float64")[0]
-        P = probe[cell]
+        P = probe[(cell, gkind(kind))]
         canon = P["confs"][P["canon"]]
         sp = prog.spaces[prog.args[0]]
         pos0 = [dof_positions(sp, cell, canon["x"][s]) for s in range(2)]
